@@ -921,6 +921,49 @@ pub fn run(a: &Args) {
         }
         out.count("kind.corpus_definitions");
     }
+    // start-state machines: 2-4 states (exclusive or inclusive), in every state one rule per operation
+    // kind (push / pop / replace) on its own letter plus a marker rule that tells the states apart; inputs
+    // are random strings over those letters, so that sequences like push, push, replace, pop — where
+    // the state BELOW the top matters — occur
+    let nmach = if a.thorough { 2000 } else { 240 };
+    for case in 0..nmach {
+        if case % a.shards != a.shard {
+            continue;
+        }
+        let mut rng = Rng::for_case(a.seed, 9, 5_000_000 + case as u64);
+        let nst = rng.range(2, 4);
+        let names = ["A", "B", "C", "D"];
+        let mut src = String::new();
+        for i in 0..nst {
+            src.push_str(&format!("{} {}\n", if rng.chance(3, 4) { "%x" } else { "%s" }, names[i]));
+        }
+        src.push_str("%%\n");
+        // state 0 is INITIAL (unqualified rules), states 1..=nst are the declared ones
+        let letters = ['a', 'b', 'c', 'd', 'e', 'f'];
+        for st in 0..=nst {
+            let q = if st == 0 { String::new() } else { format!("<{}>", names[st - 1]) };
+            let nops = rng.range(1, 3);
+            for k in 0..nops {
+                let tgt = names[rng.below(nst)];
+                let op = match rng.below(4) { 0 | 1 => format!("<+{}>", tgt), 2 => format!("<-{}>", tgt), _ => format!("<{}>", tgt) };
+                src.push_str(&format!("{}{} {}'O{}_{}'\n", q, letters[(st + 2 * k) % letters.len()], op, st, k));
+            }
+            src.push_str(&format!("{}x 'X{}'\n", q, st));
+        }
+        src.push_str("[ ] ;\n");
+        let d = Desc { route: Route::Text { src, flags: 0 }, sync: None };
+        let inputs: Vec<String> = (0..6)
+            .map(|_| {
+                let n = rng.range(3, 14);
+                (0..n).map(|_| if rng.chance(1, 4) { 'x' } else { letters[rng.below(letters.len())] }).collect()
+            })
+            .collect();
+        if run_desc(&mut out, &d, &inputs, None, true, true) {
+            out.count("kind.state_machine_definitions");
+        } else {
+            out.count("kind.state_machine_refused");
+        }
+    }
     let (ndefs, ninputs, maxlen) = if a.thorough { (40000, 5, 20) } else { (4000, 4, 14) };
     for case in 0..ndefs {
         if case % a.shards != a.shard {
